@@ -62,6 +62,8 @@ def canon(v, ty):
         n = len(ty["tails"])
         return "(" + ",".join([canon(v[:len(v) - n], {"k": "list", "e": ty["e"]})] +
                               [canon(x, t) for x, t in zip(v[len(v) - n:], ty["tails"])]) + ")"
+    if k == "effect":
+        return fmt_formula(v)
     if k == "builder":
         ctor, log = BUILDER_VIEW[ty["cls"]](v)
         return "(" + canon(ctor, ty["ctor"]) + "," + canon(log, {"k": "list", "e": ty["args"]}) + ")"
@@ -76,6 +78,26 @@ def canon_obj(obj, cls, manifest):
         v = getattr(obj, f)
         parts.append("{}={}".format(f, canon_obj(v, ty["cls"], manifest) if ty["k"] == "obj" else canon(v, ty)))
     return "{}({})".format(cls, ",".join(parts))
+
+
+def fmt_formula(F):
+    """canonical text of a CNF / OPB object (the driver's `fmtFormula`)"""
+    from cnfgen.formula.baseopb import BaseOPB
+    if isinstance(F, BaseOPB):
+        cs = list(F)
+        parts = [str(len(cs))]
+        for c in cs:
+            c = list(c)
+            toks = []
+            for coef, lit in c[:-2]:
+                toks += [str(coef), str(lit)]
+            parts.append(" ".join(toks + [str(c[-2]), str(c[-1])]))
+        return "{} {}".format(F.number_of_variables(), " ; ".join(parts))
+    cs = [list(c) for c in F.clauses()]
+    out = [str(len(cs))]
+    for c in cs:
+        out += [str(l) for l in c] + ["0"]
+    return "{} {}".format(F.number_of_variables(), " ".join(out))
 
 
 def _record_commands(modname, cls, cmd):
@@ -136,6 +158,8 @@ def encode(v, ty):
         for x, t in zip(v[len(v) - n:], ty["tails"]):
             out += encode(x, t)
         return out
+    if k == "effect_class":
+        return [v]
     if k == "outcome":
         return [OUTCOME[v]]
     if k == "abs":
@@ -211,6 +235,8 @@ def gen_value(rng, ty, hint=None, ctx=None):
         return tuple(gen_value(rng, t) for t in ty["es"])
     if k == "abs":
         return ABS[ty["name"]]["gen"](rng)
+    if k == "effect_class":
+        return rng.choice([0, 0, 1])
     if k == "het":
         return gen_value(rng, {"k": "list", "e": ty["e"]}) + [gen_value(rng, t) for t in ty["tails"]]
     if k == "erased":
@@ -451,6 +477,10 @@ def lin_lits(rng, ctx):
 
 
 HINTS = {
+    ("PigeonholePrinciple", "pigeons"): lambda rng, ctx: rng.choice([0, 1, 2, 3, 4, 5, -1]),
+    ("PigeonholePrinciple", "holes"): lambda rng, ctx: rng.choice([0, 1, 2, 3, 4, -1]),
+    ("non_negative_int", "value"): lambda rng, ctx: rng.choice([0, 1, -1, 5, -7, 2 ** 70]),
+    ("positive_int", "value"): lambda rng, ctx: rng.choice([0, 1, -1, 5, -7, 2 ** 70]),
     ("CNFLinear", "lits"): lin_lits,
     ("CNFLinear", "op"): lambda rng, ctx: rng.choice(["<=", ">=", "<", ">", "==", "!="] * 3 + ["=", "=>"]),
     ("CNFLinear", "constant"): lambda rng, ctx: rng.randint(-2, 8),
@@ -803,6 +833,11 @@ def make_call(rng, fn, manifest):
             v = gen_value(rng, ty, hint_for(owner, p, meth), ctx)
             ctx[p] = v
             enc.append((ty, v))
+            if ty["k"] == "effect_class":
+                from cnfgen.formula.cnf import CNF
+                from cnfgen.formula.opb import OPB
+                real.append(OPB if v == 1 else CNF)
+                continue
             real.append(ABS[ty["name"]]["real"](v) if ty["k"] == "abs" else v)
         return real, enc
     init = manifest["classes"][cls]["init"] if cls else None
